@@ -81,6 +81,7 @@ class Raw:
     """hand-written *specification* text (spec fns, lemmas, shims); never code"""
     path: str = None
     text: str = None
+    item: str = None     # set when the text is DERIVED from /repo's sources on every run: it then counts as an extracted item (hashed for the baseline guard)
 
 
 @dataclass
@@ -415,6 +416,8 @@ def generate(unit: Unit, root, rules_mod):
             start = cur_line()
             parts.append(f"// ---- spec {nm}\n" + t + "\n")
             meta["linemap"].append({"kind": "spec", "name": nm, "start": start, "end": cur_line()})
+            if it.item:
+                meta["items"].append({"item": it.item, "lines": [0, 0], "sha256": sha(t), "kind": "derived"})
             continue
         src = load_source(it.file)
         rules = it.rules if it.rules is not None else unit.rules
